@@ -9,7 +9,7 @@ def run(ctx):
     variants = ["fresh", "dirtybuf", "reset_after_fail"]
     states = trans = programs = ops = 0
     samples = []
-    cfgs = [("Writer_misuse4.cfg", "m4")] if ctx.quick() else [("Writer_misuse4.cfg", "m4"), ("Writer_misuse5.cfg", "m5")]
+    cfgs = [("Writer_misuse4.cfg", "m4"), ("Writer_fn.cfg", "fn")] if ctx.quick() else [("Writer_misuse4.cfg", "m4"), ("Writer_misuse5.cfg", "m5"), ("Writer_fn.cfg", "fn")]
     for cfg, name in cfgs:
         r = wf.gen(ctx, cfg, name, timeout=2400)
         states += r.distinct
@@ -32,7 +32,7 @@ def run(ctx):
         "samples": samples, "calls_compared": ops,
         "invariants": ["NoGarbage", "StickyError", "ResetIsFresh"], "exhaustive": True,
         "explanation": "all call sequences of the bound over {root Message/List/Value/Any, Field(tag).scalar/Any/Message/List, "
-                       "HasField, Copy/Merge, End/Build on every live or dead message handle, element scalars/Any/List/Message, "
+                       "WriteField through a function of the caller that succeeds or reports an error, HasField, Copy/Merge, End/Build on every live or dead message handle, element scalars/Any/List/Message, "
                        "list End/Build/Len through any list handle, Value.Build, Reset, Free}; after every call the return "
                        "class, Writer.Err() class, HasField/Len results and Build bytes are compared with the machine; a panic "
                        "in any call is a violation",
